@@ -83,7 +83,7 @@ def comparisons(case):
     braw = A.raw(b)
     shapes = [sa["shape"]] + ([braw.shape] if isinstance(braw, snp.ndarray) else [])
     full = snp._bc_shape(shapes)
-    prove("shape_is_broadcast_shape", len(r.shape) == len(full) and bool(SV(snp._shape_eq_term(r.shape, full), "b")))
+    prove("shape_is_broadcast_shape", core.conj(len(r.shape) == len(full), SV(snp._shape_eq_term(r.shape, full), "b") if len(r.shape) == len(full) else False))
     idx = A.skolem_index(full)
     pa = sa["elem"](snp._bc_index(idx, sa["shape"], full)) * ua.scale
     if isinstance(braw, snp.ndarray):
